@@ -159,3 +159,41 @@ def emit_growloop(R, cls, rel, loop_contract):
     out = '#line %d "%s"\n' % (line, X.REPO + "/" + p.rel) + X.splice(chdr, "{ " + b + " }", None, {0: loop_contract})
     return out, {"functions": [{"name": "%s::setAnisotropicRefinement (grow loop)" % cls, "file": p.rel, "line": line, "loops": 1}],
                  "rules_fired": {k: v for k, v in R.counts.items() if v}, "fidelity": X.fidelity(src, b, extra_vocab=["updateGrid", "type", "weights", "level_limits", "getNumNeeded"])}
+
+
+def emit_buildUpdateMap_classic(R, rule="localp"):
+    """GridLocalPolynomial::buildUpdateMap<effrule>: the part up to the end of the classic / parents-first branch (block selector)."""
+    text = X.strip_comments(X.read_source(LP))
+    (p,) = X.cut(LP, r'template<RuleLocal::erule\s+effrule>\s*Data2D<int>\s+GridLocalPolynomial::buildUpdateMap\s*\(\s*double\s+tolerance\s*,\s*TypeRefinement\s+criteria\s*,\s*int\s+output\s*,\s*const\s+double\s*\*scale_correction\s*\)\s*const', text)
+    m = re.search(r'if\s*\(\s*\(criteria\s*==\s*refine_classic\)\s*\|\|\s*\(criteria\s*==\s*refine_parents_first\)\s*\)\s*(?=\{)', p.body)
+    if not m:
+        raise X.ExtractionBreak("buildUpdateMap: classic branch not found")
+    e = X.match_close(p.body, m.end())
+    b = p.body[1:e + 1]          # from the first statement to the end of the classic branch
+    src = b
+    b = R.sub("R11-omp-pragma", r'#\s*pragma\s+omp[^\n]*', '', b)
+    b = R.sub("R5-pmap", r'Data2D<int>\s+pmap\(num_dimensions,\s*num_points,\s*std::vector<int>\(Utils::size_mult\(num_dimensions,\s*num_points\),\s*\(tolerance == 0\.0\) \? 1 : 0\)\s*\)\s*;',
+              'tsg_fill_int(pmap, (size_t) num_dimensions * (size_t) num_points, (tolerance == 0.0) ? 1 : 0);', b, flags=re.S)
+    b = R.sub("R5-return-map", r'return\s+pmap\s*;', 'return;', b)
+    b = R.sub("R10-self-call", r'std::vector<double>\s+norm\s*=\s*getNormalization\(\)\s*;', 'const double *norm = GridLocalPolynomial_getNormalization(self);', b)
+    b = R.sub("R5-wrapper2d", r'Utils::Wrapper2D<double const>\s+scale\(\s*(\w+)\s*,\s*(\w+)\s*\)\s*;', r'size_t scale_stride = (size_t) \1; const double *scale_data = \2;', b)
+    b = R.sub("R5-local-vector", r'std::vector<double>\s+default_scale\s*;', '', b)
+    b = R.sub("R5-default-scale", r'default_scale\s*=\s*std::vector<double>\(Utils::size_mult\(\s*(\w+)\s*,\s*(\w+)\s*\),\s*1\.0\)\s*;', r'tsg_fill_double(default_scale, (size_t) \1 * (size_t) \2, 1.0);', b)
+    b = R.sub("R5-wrapper2d", r'scale\s*=\s*Utils::Wrapper2D<double const>\(\s*(\w+)\s*,\s*default_scale\.data\(\)\)\s*;', r'scale_stride = (size_t) \1; scale_data = default_scale;', b)
+    b = R.sub("R2-nullptr", r'\bnullptr\b', '0', b)
+    b = R.sub("R5-strip", r'\bsurpluses\.getStrip\(\s*i\s*\)', '(&self->surpluses[(size_t) i * (size_t) self->num_outputs])', b)
+    b = R.sub("R5-strip", r'\bscale\.getStrip\(\s*i\s*\)', '(&scale_data[(size_t) i * scale_stride])', b)
+    b = R.sub("R5-fill_n", r'std::fill_n\(\s*pmap\.getStrip\(i\)\s*,\s*num_dimensions\s*,\s*1\s*\)', 'tsg_fill_int(&pmap[(size_t) i * (size_t) self->num_dimensions], (size_t) self->num_dimensions, 1)', b)
+    b = R.sub("R13-fp-criterion", r'\(\(c\[(\w+)\] \* std::abs\(s\[(\w+)\]\) / norm\[(\w+)\]\) <= tolerance\)', r'tsg_small(c[\1], s[\2], norm[\3], tolerance)', b)
+    b = R.sub("R10-receiver-call", r'\bpoints\.getNumIndexes\(\)', 'self->num_points', b)
+    for mname in ("num_dimensions", "num_outputs"):
+        b = R.sub("R10-member", r'(?<![\w.>_])%s\b' % mname, 'self->' + mname, b)
+    X.check_leftover(b, "buildUpdateMap (classic)")
+    R.require({"R5-pmap": 1, "R5-wrapper2d": 2, "R5-strip": 2, "R5-fill_n": 1, "R13-fp-criterion": 2, "R5-default-scale": 1, "R10-self-call": 1})
+    chdr = "void buildUpdateMap_classic(const GLP *self, double tolerance, TypeRefinement criteria, int output, const double *scale_correction, int *pmap, double *default_scale)"
+    out = '#line %d "%s"\n%s{%s\n}\n' % (p.line, X.REPO + "/" + p.rel, chdr, b)
+    return out, {"functions": [{"name": "GridLocalPolynomial::buildUpdateMap (classic / parents-first branch)", "file": p.rel, "line": p.line, "loops": X.count_loops(b)}],
+                 "rules_fired": {k: v for k, v in R.counts.items() if v},
+                 "drops": ["the directional (fds) branch of buildUpdateMap", "#pragma omp parallel for"],
+                 "fidelity": X.fidelity(src, b, extra_vocab=["Data2D", "pmap", "Utils", "size_mult", "vector", "norm", "getNormalization", "Wrapper2D", "scale", "default_scale", "data", "surpluses", "getStrip",
+                                                            "fill_n", "abs", "points", "getNumIndexes", "num_dimensions", "num_outputs", "pragma", "omp", "parallel", "for", "return", "scale_correction", "active_outputs"], slack=14)}
